@@ -92,55 +92,217 @@ func C16(c *Ctx) {
 	cserv := c.fn("R16.1", imPrefix+"checkServiceAvailability")
 	begin := c.fn("R16.1", imPrefix+"beginTransaction")
 	if check != nil && csa != nil && cta != nil && handle != nil && cserv != nil && begin != nil {
-		// local-source request branch: the checkIndex / target check lie behind checkSourceAvailability == nil
-		var gs []core.GuardSite
-		for _, call := range core.Calls(check) {
-			if cl, ok := call.(*ssa.Call); ok && core.StaticCallee(call) == csa {
-				gs = append(gs, core.GuardSite{Call: cl, Conv: core.ConvErrNil, Idx: -1})
+		// local-source request branch: the target check lies behind checkSourceAvailability == nil.
+		// checkIBTP may be split into helpers per category (extract method): the rule follows the code - sites are
+		// looked for in checkIBTP and the InterchainManager helpers it calls (three levels), and an obligation that is
+		// not met inside a helper is lifted to the helper's call sites.
+		var regionFns []*ssa.Function
+		callSites := map[*ssa.Function][]ssa.CallInstruction{} // helper -> its call sites inside the region
+		for _, rf := range c.regionOf(check, 3) {
+			if rf.fn.Parent() == nil && (rf.fn == check || strings.Contains(core.FnName(rf.fn), "InterchainManager")) {
+				regionFns = append(regionFns, rf.fn)
 			}
 		}
-		es := core.EdgeSet{}
-		for b, m := range core.SuccessEdges(check, gs) {
-			for i := range m {
-				es.Add(b, i)
+		inRegion := map[*ssa.Function]bool{}
+		for _, f := range regionFns {
+			inRegion[f] = true
+		}
+		for _, f := range regionFns {
+			for _, call := range core.Calls(f) {
+				if g := core.StaticCallee(call); g != nil && inRegion[g] && g != f {
+					callSites[g] = append(callSites[g], call)
+				}
 			}
 		}
-		// a request is accepted through checkTargetAvailability; when the source is local (true edge of
-		// srcChainService.IsLocal, the service parsed from ibtp.From) that call is reachable only across
-		// checkSourceAvailability == nil. Paths on which the source is remote (false edge) need no source check.
-		isSrc := func(v ssa.Value) bool {
-			return core.Mentions(v, func(w ssa.Value) bool {
+		// isSrc(f, v): v is (derived from) the chain service parsed from ibtp.From - directly, or a parameter of a
+		// helper that every call site fills with it
+		var isSrc func(f *ssa.Function, v ssa.Value, d int) bool
+		isSrc = func(f *ssa.Function, v ssa.Value, d int) bool {
+			if core.Mentions(v, func(w ssa.Value) bool {
 				cc, ok := w.(*ssa.Call)
 				return ok && strings.HasSuffix(core.CalleeName(cc), "parseChainService") && len(cc.Call.Args) > 0 && core.Mentions(cc.Call.Args[len(cc.Call.Args)-1], fieldNamed("From"))
-			})
-		}
-		srcRemote := condEdges(check, func(f core.Fact, ifi *ssa.If) (bool, int) {
-			if f.Kind == core.FBool && f.Field == "IsLocal" && isSrc(f.Subject) {
-				return true, 1 - holdsEdge(f)
+			}) {
+				return true
 			}
-			return false, 0
-		})
-		r.Floor("R16.1", "tests of the source's IsLocal flag in checkIBTP", srcRemote.Len(), 1)
-		es.Merge(srcRemote)
-		var local []ssa.Instruction
-		for _, call := range core.Calls(check) {
-			if core.StaticCallee(call) == cta {
-				local = append(local, call)
+			if d > 3 || len(callSites[f]) == 0 {
+				return false
 			}
-		}
-		r.Floor("R16.1", "target checks in checkIBTP", len(local), 1)
-		c.behindEdges("R16.1", "checkIBTP", check, es, func(in ssa.Instruction) bool {
-			for _, x := range local {
-				if x == in {
+			for pi, p := range f.Params {
+				pp := p
+				if !core.Mentions(v, func(w ssa.Value) bool { return w == ssa.Value(pp) }) {
+					continue
+				}
+				all := true
+				for _, cs := range callSites[f] {
+					if pi >= len(cs.Common().Args) || !isSrc(cs.Parent(), cs.Common().Args[pi], d+1) {
+						all = false
+					}
+				}
+				if all {
 					return true
 				}
 			}
 			return false
-		}, "checkSourceAvailability == nil (or source not local)", "acceptance of a request")
+		}
+		nSrcTests := 0
+		edgesOf := func(f *ssa.Function) core.EdgeSet {
+			var gs []core.GuardSite
+			for _, call := range core.Calls(f) {
+				if cl, ok := call.(*ssa.Call); ok && core.StaticCallee(call) == csa {
+					gs = append(gs, core.GuardSite{Call: cl, Conv: core.ConvErrNil, Idx: -1})
+				}
+			}
+			es := core.EdgeSet{}
+			for b, m := range core.SuccessEdges(f, gs) {
+				for i := range m {
+					es.Add(b, i)
+				}
+			}
+			// paths on which the source is remote (false edge of srcChainService.IsLocal) need no source check
+			srcRemote := condEdges(f, func(fc core.Fact, ifi *ssa.If) (bool, int) {
+				if fc.Kind == core.FBool && fc.Field == "IsLocal" && isSrc(f, fc.Subject, 0) {
+					return true, 1 - holdsEdge(fc)
+				}
+				return false, 0
+			})
+			nSrcTests += srcRemote.Len()
+			es.Merge(srcRemote)
+			return es
+		}
+		edgeMemo := map[*ssa.Function]core.EdgeSet{}
+		esOf := func(f *ssa.Function) core.EdgeSet {
+			if e, ok := edgeMemo[f]; ok {
+				return e
+			}
+			e := edgesOf(f)
+			edgeMemo[f] = e
+			return e
+		}
+		// guardedUp: instruction `in` of f executes only after the source check - inside f, or at every call site of f
+		var guardedUp func(f *ssa.Function, in ssa.Instruction, d int) (bool, string)
+		guardedUp = func(f *ssa.Function, in ssa.Instruction, d int) (bool, string) {
+			es := esOf(f)
+			rs := core.Reach([]core.Point{core.EntryOf(f)}, nil, core.CutOf(es))
+			if es.Len() > 0 && !rs.Has(in) {
+				return true, ""
+			}
+			if f == check || d > 3 || len(callSites[f]) == 0 {
+				return false, fmt.Sprintf("%s at %s is reachable in %s without crossing checkSourceAvailability == nil (or source not local); path (lines): %s", "the target check", c.P.Pos(in.Pos()), core.FnName(f), rs.Witness(c.P, in))
+			}
+			for _, cs := range callSites[f] {
+				if ok, why := guardedUp(cs.Parent(), cs, d+1); !ok {
+					return false, why
+				}
+			}
+			return true, ""
+		}
+		nTarget := 0
+		type ctaSite struct {
+			f    *ssa.Function
+			call ssa.CallInstruction
+		}
+		var ctaSites []ctaSite
+		for _, f := range regionFns {
+			for _, call := range core.Calls(f) {
+				if core.StaticCallee(call) == cta {
+					ctaSites = append(ctaSites, ctaSite{f, call})
+				}
+			}
+		}
+		for _, st := range ctaSites {
+			nTarget++
+			ok, why := guardedUp(st.f, st.call, 0)
+			key := "checkIBTP: acceptance of a request behind checkSourceAvailability == nil (or source not local)"
+			if nTarget > 1 {
+				key += fmt.Sprintf("#%d", nTarget)
+			}
+			r.Check(ok, "R16.1", key, c.P.Pos(st.call.Pos()), "the target check is only reachable across the source check (in its function or at every call site of it)", why)
+		}
+		for _, f := range regionFns {
+			esOf(f)
+		}
+		r.Floor("R16.1", "tests of the source's IsLocal flag in checkIBTP", nSrcTests, 1)
+		r.Floor("R16.1", "target checks in checkIBTP", nTarget, 1)
 		// R16.7: every verdict of checkTargetAvailability is the target error checkIBTP returns
 		nV := 0
-		for _, call := range core.Calls(check) {
-			if core.StaticCallee(call) != cta || call.Value() == nil {
+		// carried(f, after, v, d): at every accepting return of f reachable after `after`, v is among the origins of a
+		// result; in checkIBTP that result is the target error (index 2); in a helper the result position is followed
+		// to every call site
+		var carried func(f *ssa.Function, after ssa.Instruction, v ssa.Value, d int) (bool, string, int)
+		carried = func(f *ssa.Function, after ssa.Instruction, v ssa.Value, d int) (bool, string, int) {
+			reach := core.Reach([]core.Point{core.After(after)}, nil, nil)
+			errIdx := f.Signature.Results().Len() - 1
+			pos := -1
+			nRet := 0
+			for _, ret := range core.Returns(f) {
+				if !reach.Has(ret) || len(ret.Results) <= errIdx || !core.MayBeSuccess(f, ret, errIdx, core.ConvErrNil) {
+					continue
+				}
+				// a return taken only where the returned error variable was tested non-nil is not an accepting one
+				ev := ret.Results[errIdx]
+				nonNil := condEdges(f, func(fc core.Fact, ifi *ssa.If) (bool, int) {
+					if fc.Kind == core.FNil && sameValue(fc.Subject, ev) {
+						return true, 1 - holdsEdge(fc)
+					}
+					return false, 0
+				})
+				if nonNil.Len() > 0 {
+					// every way to the return crosses such an edge?
+					without := core.Reach([]core.Point{core.EntryOf(f)}, nil, core.CutOf(nonNil))
+					if !without.Has(ret) {
+						continue
+					}
+				}
+				nRet++
+				found := -1
+				for k := range ret.Results {
+					if k == errIdx {
+						continue
+					}
+					for _, o := range core.RetOrigins(ret.Results[k]) {
+						if core.Strip(o.V) == v {
+							found = k
+						}
+					}
+				}
+				if found < 0 || (pos >= 0 && found != pos) {
+					return false, c.P.Pos(ret.Pos()), nRet
+				}
+				pos = found
+			}
+			if nRet == 0 {
+				return false, c.P.Pos(f.Pos()), 0
+			}
+			if f == check {
+				return pos == 2, c.P.Pos(f.Pos()), nRet
+			}
+			if d > 3 || len(callSites[f]) == 0 {
+				return false, c.P.Pos(f.Pos()), nRet
+			}
+			total := 0
+			for _, cs := range callSites[f] {
+				var ex ssa.Value
+				if cv := cs.Value(); cv != nil && cv.Referrers() != nil {
+					for _, ref := range *cv.Referrers() {
+						if e, ok := ref.(*ssa.Extract); ok && e.Index == pos {
+							ex = e
+						}
+					}
+				}
+				if ex == nil {
+					return false, c.P.Pos(cs.Pos()), nRet
+				}
+				ok, where, n := carried(cs.Parent(), cs, ex, d+1)
+				if !ok {
+					return false, where, n
+				}
+				total += n
+			}
+			return true, "", total
+		}
+		for _, st := range ctaSites {
+			call := st.call
+			if call.Value() == nil {
 				continue
 			}
 			nV++
@@ -150,26 +312,12 @@ func C16(c *Ctx) {
 					verdict = ex
 				}
 			}
-			after := core.Reach([]core.Point{core.After(call)}, nil, nil)
-			bad := ""
-			nRet := 0
-			for _, ret := range core.Returns(check) {
-				if !after.Has(ret) || len(ret.Results) < 4 || !core.MayBeSuccess(check, ret, 3, core.ConvErrNil) {
-					continue
-				}
-				nRet++
-				has := false
-				for _, o := range core.RetOrigins(ret.Results[2]) {
-					if verdict != nil && core.Strip(o.V) == verdict {
-						has = true
-					}
-				}
-				if !has {
-					bad = c.P.Pos(ret.Pos())
-				}
+			okV, bad, nRet := false, c.P.Pos(call.Pos()), 0
+			if verdict != nil {
+				okV, bad, nRet = carried(st.f, call, verdict, 0)
 			}
 			key := fmt.Sprintf("checkIBTP: verdict of checkTargetAvailability #%d is the returned target error", nV)
-			r.Check(bad == "" && verdict != nil && nRet > 0, "R16.7", key, c.P.Pos(call.Pos()), fmt.Sprintf("the error result of the call is among the origins of the target error at %d accepting return(s)", nRet),
+			r.Check(okV && verdict != nil && nRet > 0, "R16.7", key, c.P.Pos(call.Pos()), fmt.Sprintf("the error result of the call is among the origins of the target error at %d accepting return(s)", nRet),
 				"the availability / permission verdict of this call does not reach the target error that checkIBTP returns at "+bad+" (discarded, or assigned to a shadowing variable): HandleIBTP sees no target error, so the request to an unavailable or forbidden service begins as a normal transaction instead of being failed")
 		}
 		r.Floor("R16.7", "checkTargetAvailability calls in checkIBTP", nV, 1)
